@@ -213,14 +213,19 @@ fn tstr(v: &Value, k: &str, d: &str) -> String {
     v.get(k).and_then(|x| x.as_str()).unwrap_or(d).to_string()
 }
 
-/// Build object `idx` (1-based) from its description.
-pub fn build_object(idx: usize, o: &Value, default_oti: &Oti, tick_us: u64) -> Result<BuiltObject, String> {
+/// the application content of object `idx` (1-based) described by `o`
+pub fn object_content(idx: usize, o: &Value) -> Vec<u8> {
     let clen = jopt_i(o, "clen", 0) as usize;
     let seed = jopt_i(o, "seed", idx as i64) as u64;
-    let content = match o.get("content_hex").and_then(|x| x.as_str()) {
+    match o.get("content_hex").and_then(|x| x.as_str()) {
         Some(h) => (0..h.len() / 2).map(|i| u8::from_str_radix(&h[2 * i..2 * i + 2], 16).unwrap()).collect(),
         None => gen_content(seed, clen),
-    };
+    }
+}
+
+/// Build object `idx` (1-based) from its description.
+pub fn build_object(idx: usize, o: &Value, default_oti: &Oti, tick_us: u64) -> Result<BuiltObject, String> {
+    let content: Vec<u8> = object_content(idx, o);
     let cenc = cenc_of(jopt_i(o, "cenc", 0));
     let oti_override = match o.get("oti") {
         Some(v) if v.is_object() => Some(make_oti(v)?),
